@@ -167,6 +167,15 @@ Proof.
   destruct (read_filter_shape p) as [-> ->]. apply IH.
 Qed.
 
+(* ---- getAllele keeps exactly the single-sample answers *)
+Lemma allele_keep_shape a : allele_keep a = match a with ASome [s] => [s] | _ => [] end.
+Proof.
+  destruct a as [|ss| |]; try reflexivity. unfold allele_keep, g_allele_keep. cbn [andb].
+  destruct ss as [|s [|s2 ss]]; try reflexivity.
+  assert (E : (Z.of_nat (length (s :: s2 :: ss)) =? 1) = false) by (apply Z.eqb_neq; cbn [length]; lia).
+  rewrite E. reflexivity.
+Qed.
+
 (* ---- __init__ and has_location *)
 Lemma self_lazy_shape cf : self_lazy cf = is_lazy cf.
 Proof. reflexivity. Qed.
